@@ -343,36 +343,205 @@ fn bool_to_json() -> goast::Fn {
 }
 
 fn json_escape_string() -> goast::Fn {
-    // Returns a JSON-escaped string with surrounding quotes
-    // Uses fmt.Sprintf("%q", s) which produces a Go string literal that is JSON-compatible
-    let fmt_ty = goty::GoType::TFunc {
-        params: vec![goty::GoType::TString, goty::GoType::TString],
-        ret_ty: Box::new(goty::GoType::TString),
+    // The argument as a JSON string (RFC 8259 section 7): a quotation mark, a reverse solidus and
+    // the control characters below U+0020 are escaped, every other byte is copied. (Go's %q
+    // is not JSON: it writes \x7f, \a, \v and \U000e0001.)
+    //
+    //     var out []uint8
+    //     out = append(out, 34)
+    //     var i int32 = 0
+    //     for {
+    //         if i >= int32(len(s)) { break }
+    //         var c uint8 = s[i]
+    //         if c == 34 { out = append(out, 92); out = append(out, 34) } else { ... }
+    //         i = i + 1
+    //     }
+    //     out = append(out, 34)
+    //     return string(out)
+    let byte = goty::GoType::TUint8;
+    let bytes = goty::GoType::TSlice {
+        elem: Box::new(goty::GoType::TUint8),
     };
+    let var = |name: &str, ty: &goty::GoType| goast::Expr::Var {
+        name: name.to_string(),
+        ty: ty.clone(),
+    };
+    let lit = |value: u32, ty: &goty::GoType| goast::Expr::Int {
+        value: value.to_string(),
+        ty: ty.clone(),
+    };
+    let binary = |op: goast::GoBinaryOp, lhs: goast::Expr, rhs: goast::Expr, ty: &goty::GoType| {
+        goast::Expr::BinaryOp {
+            op,
+            lhs: Box::new(lhs),
+            rhs: Box::new(rhs),
+            ty: ty.clone(),
+        }
+    };
+    let push = |value: goast::Expr| goast::Stmt::Assignment {
+        name: "out".to_string(),
+        value: goast::Expr::Call {
+            func: Box::new(goast::Expr::Var {
+                name: "append".to_string(),
+                ty: goty::GoType::TFunc {
+                    params: vec![bytes.clone(), byte.clone()],
+                    ret_ty: Box::new(bytes.clone()),
+                },
+            }),
+            args: vec![var("out", &bytes), value],
+            ty: bytes.clone(),
+        },
+    };
+    let push_lits = |values: &[u32]| -> Vec<goast::Stmt> {
+        values.iter().map(|v| push(lit(*v, &byte))).collect()
+    };
+    let hex_digit = |index: goast::Expr| goast::Expr::Index {
+        array: Box::new(goast::Expr::String {
+            value: "0123456789abcdef".to_string(),
+            ty: goty::GoType::TString,
+        }),
+        index: Box::new(index),
+        ty: byte.clone(),
+    };
+    let c = || var("c", &byte);
+    let high = || binary(goast::GoBinaryOp::Div, c(), lit(16, &byte), &byte);
+    let low = || {
+        binary(
+            goast::GoBinaryOp::Sub,
+            c(),
+            binary(goast::GoBinaryOp::Mul, high(), lit(16, &byte), &byte),
+            &byte,
+        )
+    };
+
+    // the last alternative first: \u00XX for the other control characters, else the byte itself
+    let mut control = push_lits(&[92, 117, 48, 48]);
+    control.push(push(hex_digit(high())));
+    control.push(push(hex_digit(low())));
+    let mut chain = goast::Stmt::If {
+        cond: binary(
+            goast::GoBinaryOp::Less,
+            c(),
+            lit(32, &byte),
+            &goty::GoType::TBool,
+        ),
+        then: goast::Block { stmts: control },
+        else_: Some(goast::Block {
+            stmts: vec![push(c())],
+        }),
+    };
+    for (code, escape) in [
+        (9u32, [92u32, 116]),
+        (13, [92, 114]),
+        (10, [92, 110]),
+        (92, [92, 92]),
+        (34, [92, 34]),
+    ] {
+        chain = goast::Stmt::If {
+            cond: binary(
+                goast::GoBinaryOp::Eq,
+                c(),
+                lit(code, &byte),
+                &goty::GoType::TBool,
+            ),
+            then: goast::Block {
+                stmts: push_lits(&escape),
+            },
+            else_: Some(goast::Block { stmts: vec![chain] }),
+        };
+    }
+
+    let len_s = goast::Expr::Call {
+        func: Box::new(goast::Expr::Var {
+            name: "int32".to_string(),
+            ty: goty::GoType::TFunc {
+                params: vec![goty::GoType::TInt32],
+                ret_ty: Box::new(goty::GoType::TInt32),
+            },
+        }),
+        args: vec![goast::Expr::Call {
+            func: Box::new(goast::Expr::Var {
+                name: "len".to_string(),
+                ty: goty::GoType::TFunc {
+                    params: vec![goty::GoType::TString],
+                    ret_ty: Box::new(goty::GoType::TInt32),
+                },
+            }),
+            args: vec![var("s", &goty::GoType::TString)],
+            ty: goty::GoType::TInt32,
+        }],
+        ty: goty::GoType::TInt32,
+    };
+    let i = || var("i", &goty::GoType::TInt32);
+    let loop_body = vec![
+        goast::Stmt::If {
+            cond: binary(
+                goast::GoBinaryOp::GreaterEq,
+                i(),
+                len_s,
+                &goty::GoType::TBool,
+            ),
+            then: goast::Block {
+                stmts: vec![goast::Stmt::Break],
+            },
+            else_: None,
+        },
+        goast::Stmt::VarDecl {
+            name: "c".to_string(),
+            ty: byte.clone(),
+            value: Some(goast::Expr::Index {
+                array: Box::new(var("s", &goty::GoType::TString)),
+                index: Box::new(i()),
+                ty: byte.clone(),
+            }),
+        },
+        chain,
+        goast::Stmt::Assignment {
+            name: "i".to_string(),
+            value: binary(
+                goast::GoBinaryOp::Add,
+                i(),
+                lit(1, &goty::GoType::TInt32),
+                &goty::GoType::TInt32,
+            ),
+        },
+    ];
+
     goast::Fn {
         name: "json_escape_string".to_string(),
         params: vec![("s".to_string(), goty::GoType::TString)],
         ret_ty: Some(goty::GoType::TString),
         body: goast::Block {
-            stmts: vec![goast::Stmt::Return {
-                expr: Some(goast::Expr::Call {
-                    func: Box::new(goast::Expr::Var {
-                        name: "fmt.Sprintf".to_string(),
-                        ty: fmt_ty,
+            stmts: vec![
+                goast::Stmt::VarDecl {
+                    name: "out".to_string(),
+                    ty: bytes.clone(),
+                    value: None,
+                },
+                push(lit(34, &byte)),
+                goast::Stmt::VarDecl {
+                    name: "i".to_string(),
+                    ty: goty::GoType::TInt32,
+                    value: Some(lit(0, &goty::GoType::TInt32)),
+                },
+                goast::Stmt::Loop {
+                    body: goast::Block { stmts: loop_body },
+                },
+                push(lit(34, &byte)),
+                goast::Stmt::Return {
+                    expr: Some(goast::Expr::Call {
+                        func: Box::new(goast::Expr::Var {
+                            name: "string".to_string(),
+                            ty: goty::GoType::TFunc {
+                                params: vec![bytes.clone()],
+                                ret_ty: Box::new(goty::GoType::TString),
+                            },
+                        }),
+                        args: vec![var("out", &bytes)],
+                        ty: goty::GoType::TString,
                     }),
-                    args: vec![
-                        goast::Expr::String {
-                            value: "%q".to_string(),
-                            ty: goty::GoType::TString,
-                        },
-                        goast::Expr::Var {
-                            name: "s".to_string(),
-                            ty: goty::GoType::TString,
-                        },
-                    ],
-                    ty: goty::GoType::TString,
-                }),
-            }],
+                },
+            ],
         },
     }
 }
